@@ -212,6 +212,12 @@ def definition_pairing(ctx, rep, clause):
                 isinstance(n.test.ops[0], ast.Eq):
             names = {x.id for s in n.body for x in ast.walk(s) if isinstance(x, ast.Name)}
             found[n.test.comparators[0].value] = (names, n)
+    # ... or the particles are looked up in a literal table {'e': ELECTRON_MASS, ...}
+    for n in walk_own(g.node):
+        if isinstance(n, ast.Dict) and n.keys and all(isinstance(k_, ast.Constant) for k_ in n.keys):
+            for k_, v_ in zip(n.keys, n.values):
+                if k_.value in want and k_.value not in found:
+                    found[k_.value] = ({x.id for x in ast.walk(v_) if isinstance(x, ast.Name)}, n)
     for k, const in want.items():
         names, node = found.get(k, (set(), None))
         ob(rep, 'SIB-def', g.fq, f"particle '{k}' weighs {const}", const in names and
